@@ -677,3 +677,43 @@ def rule_declared(chk, rid, ctx, classes=None):
                 chk.decide(rid, cons, True, f"{cname}: {aname} <= {p} in all {len(verdicts)} constructor outcomes", rel=rel, node=f)
             else:
                 chk.decide(rid, cons, None, f"{cname}: " + next(v[1] for v in verdicts if v[0] is not True), rel=rel, node=f)
+
+
+def stored_by_constructors(repo, cname):
+    """names available on every instance of cname right after construction: attributes stored by an __init__ of the MRO,
+    class-level names, methods and properties"""
+    have = set()
+    for _, cc in repo.mro(cname):
+        for b_ in cc.body:
+            if isinstance(b_, ast.FunctionDef):
+                have.add(b_.name)
+                if b_.name == "__init__":
+                    for x in ast.walk(b_):
+                        if isinstance(x, (ast.Assign, ast.AugAssign, ast.AnnAssign)):
+                            for t in (x.targets if isinstance(x, ast.Assign) else [x.target]):
+                                for y in ast.walk(t):
+                                    if isinstance(y, ast.Attribute) and isinstance(y.value, ast.Name) and y.value.id == "self":
+                                        have.add(y.attr)
+            elif isinstance(b_, ast.Assign):
+                have |= {t.id for t in b_.targets if isinstance(t, ast.Name)}
+    return have
+
+
+def rule_observer_attrs(chk, rid, repo, cname, observers):
+    """an observer that can be read at any time reads only attributes that exist from construction on"""
+    have = stored_by_constructors(repo, cname)
+    for oname in observers:
+        try:
+            rel, c, f = repo.resolve_method(cname, oname)
+        except AnchorMissing:
+            continue
+        reads = {x.attr for x in ast.walk(f) if isinstance(x, ast.Attribute) and isinstance(x.value, ast.Name) and x.value.id == "self"
+                 and isinstance(x.ctx, ast.Load)}
+        # hasattr(self, "x") guards make a read conditional: not an unconditional read
+        guarded = {x.args[1].value for x in ast.walk(f) if isinstance(x, ast.Call) and getattr(x.func, "id", None) == "hasattr"
+                   and len(x.args) == 2 and isinstance(x.args[1], ast.Constant)}
+        missing = sorted(reads - have - guarded)
+        chk.decide(rid, f"{rel[:-3]}.{c.name}.{oname}@{cname}#attributes", True if not missing else False,
+                   f"{oname} reads {sorted(reads)}" + ("" if not missing else f"; {missing} is not stored by the constructors of {cname}: "
+                                                       "reading it before the first action raises AttributeError"),
+                   rel=rel, node=f, nontrivial=False)
